@@ -121,6 +121,8 @@ def run(modname, tier, seed, out=sys.stdout):
     viol_groups = {}      # signature -> (violation, case, count)
     nviol = 0
     chunk = getattr(mod, "CHUNK", 200)
+    failfast = bool(os.environ.get("VERIF_FAILFAST"))    # maintainer tool (mc.mutsweep): stop at the first unlisted violation
+    stop = False
     for r in common.pmap(mod.check_case, mod.cases(tier, seed), chunk=chunk):
         evals += 1
         transitions += r.get("transitions", 1)
@@ -144,8 +146,12 @@ def run(modname, tier, seed, out=sys.stdout):
             if s not in viol_groups:
                 viol_groups[s] = [v, v.get("input", r.get("sample")), 0]
             viol_groups[s][2] += 1
+            if failfast and match_finding(findings, v) is None:
+                stop = True
+        if stop:
+            break
     extra = {}
-    if hasattr(mod, "finish"):
+    if hasattr(mod, "finish") and not stop:
         extra = mod.finish(tier, seed) or {}
         for v in extra.pop("viol", []):
             nviol += 1
@@ -223,7 +229,7 @@ def run(modname, tier, seed, out=sys.stdout):
         "wall_s": round(wall, 2),
         "violations": len(unlisted),
     }
-    if common.REPO == "/repo" and not os.environ.get("VERIF_NO_EVIDENCE"):
+    if common.REPO == "/repo" and not os.environ.get("VERIF_NO_EVIDENCE") and not failfast:
         os.makedirs(EVIDENCE_DIR, exist_ok=True)
         with open(os.path.join(EVIDENCE_DIR, prop + ".json"), "w") as f:
             json.dump(ev, f, indent=1, sort_keys=True, default=str)
